@@ -99,7 +99,7 @@ def run_group(crate: str, harnesses: List[str], features: str = '', jobs: int = 
   for r in final:
     if r.status == 'FAILED' and playback:
       try:
-        r.playback = concrete_playback(crate, features, r.harness, d, env)
+        r.playback = concrete_playback(crate, features, r.harness, d, env, mem_gb=mem_gb, timeout=min(timeout, 900), extra=extra)
       except Exception as ex:   # playback is best effort; the failure itself stands
         r.playback = {'error': str(ex)}
   return final
@@ -146,6 +146,9 @@ def parse_kani(out: str, crate: str, features: str) -> List[HarnessResult]:
       st = m.group(1)
       if st == 'FAILED' and active.failed_checks and all('unwinding assertion' in c for c in active.failed_checks):
         st = 'UNWIND'
+      if st == 'FAILED' and active.failed == 0 and not active.failed_checks:
+        # CBMC reported no failing check (solver ran out of memory / was killed): undecided, never an alarm
+        st = 'ERROR'; active.failed_checks = ['verifier ended without a failing check (resource limit)']
       active.status = st
       continue
     m = re.match(r'^Verification Time: ([0-9.]+)s', line)
@@ -156,12 +159,20 @@ def parse_kani(out: str, crate: str, features: str) -> List[HarnessResult]:
   return results
 
 
-def concrete_playback(crate: str, features: str, harness: str, d: str, env: dict) -> dict:
+def concrete_playback(crate: str, features: str, harness: str, d: str, env: dict, mem_gb: int = 16, timeout: int = 900, extra=None) -> dict:
   cmd = ['cargo', 'kani', '-Z', 'function-contracts', '-Z', 'stubbing', '-Z', 'concrete-playback', '--concrete-playback=print',
          '--output-format=terse', '--harness', harness]
   if features: cmd += ['--features', features]
-  p = subprocess.run(cmd, cwd=d, env=env, capture_output=True, text=True, timeout=1800)
-  out = p.stdout + p.stderr
+  if extra: cmd += extra
+  import signal
+  proc = subprocess.Popen(cmd, cwd=d, env=env, stdout=subprocess.PIPE, stderr=subprocess.STDOUT, text=True, preexec_fn=_limit_mem(mem_gb), start_new_session=True)
+  try:
+    out, _ = proc.communicate(timeout=timeout)
+  except subprocess.TimeoutExpired:
+    try: os.killpg(proc.pid, signal.SIGKILL)
+    except ProcessLookupError: pass
+    proc.wait()
+    return {'values': None, 'note': 'concrete playback exceeded %d s' % timeout}
   m = re.search(r'```\n(.*?)```', out, flags=re.S)
   if not m: return {'values': None, 'note': 'Kani printed no concrete playback test'}
   test_src = m.group(1)
